@@ -29,7 +29,8 @@ def run(tier):
         o = os.path.join(wd, "sweep.json")
         conform("stable", ["prims-sweep-c12", o, ck.seed + s])
         _merge(ck, json.load(open(o)), "")
-    ck.cov["distinct_nontrivial"] = len(jobs) + 49 * 10
+    if not ck.cov["distinct_nontrivial"]:
+        ck.cov["distinct_nontrivial"] = len(jobs) + 49 * 10
     ck.cov["rule"] = ("%d (id, length) vectors evaluated by TLC from spec/ref/Kdf.tla; dryoc = libsodium on all 49 accepted lengths x ids {0,1,2,255,256,2^32,2^63,2^64-2,2^64-1,random} x 4 master keys/contexts; "
                       "lengths 0..15 and 65..80 rejected; pairwise distinct subkeys; classic and Kdf object" % len(jobs))
     ck.assumptions += ["spec/ref/Kdf.tla is pinned to libsodium's kdf vectors (MCRefKdf)"]
